@@ -44,7 +44,7 @@ func main() {
 			panic(err)
 		}
 		p, err := shapegen.FromReplay(b)
-		if err != nil || len(p.Shapes) != 1 || len(p.Requests[0]) != 1 {
+		if err != nil || len(p.Shapes) != 1 || len(p.Requests) != 1 || len(p.Requests[0]) != 1 {
 			fmt.Println("0 candidates")
 			return
 		}
